@@ -165,7 +165,7 @@ def large_shard(sizes):
             msg = quiet(judge, trace, e.mod, e.tmp, None)
             stats.case(case, True, ("large-trace",), sample_cap=2)
             if msg:
-                stats.violations.append({"case": case, "msg": "trace %s: %s" % ("with %d constraints" % n if isinstance(n, int) else "with %s public values" % n[3:], msg), "key": "large"})
+                stats.violations.append({"case": case, "msg": "trace %s: %s" % ("with %d constraints" % n if isinstance(n, int) else "with %s public values" % n[3:] if n.startswith("pub") else "sweeping coefficients (%s)" % n, msg), "key": "large"})
     finally:
         e.close()
     return stats
@@ -193,7 +193,7 @@ def run(ctx):
     jobs = [dict(seed=ctx.seed * 1000 + i, n_examples=n, programs=(i % 2 == 0)) for i in range(16)]
     ctx.stats = core.run_shards("harness.checks.c10", "shard", jobs)
     # (12000 / 40001 constraints: constraint sections of 1.5 to 6 MB, beyond any buffer or chunk size of a writer)
-    sizes = [1, 85, 255, 256, 257, 1000, 1001, 1025, 12000, 40001, "pub255", "pub256", "pub257", "pub1000", "pub65535", "pub65537"] if ctx.tier == "quick" else [1, 85, 255, 256, 257, 999, 1000, 1001, 1024, 1025, 2047, 2501, 4097, 10001, 12000, 32769, 40001, "pub255", "pub256", "pub257", "pub1000", "pub65535", "pub65537"]
+    sizes = [1, 85, 255, 256, 257, 1000, 1001, 1025, 12000, 40001, "pub255", "pub256", "pub257", "pub1000", "pub65535", "pub65537", "coef10001"] if ctx.tier == "quick" else [1, 85, 255, 256, 257, 999, 1000, 1001, 1024, 1025, 2047, 2501, 4097, 10001, 12000, 32769, 40001, "pub255", "pub256", "pub257", "pub1000", "pub65535", "pub65537", "coef70001"]
     ctx.stats.merge_json(core.run_shards("harness.checks.c10", "large_shard", [dict(sizes=sizes[i::8]) for i in range(8)]).to_json())
     # the same encoder in an interpreter started with -O (assert statements stripped)
     ctx.stats.merge_json(core.run_shards_optimised("harness.checks.c10", "large_shard", [dict(sizes=[1, 85])]).to_json())
